@@ -204,6 +204,54 @@ def gen_casts(L):
     L.append("Definition INT_FROM_BYTES_MAX_BITS : N := 64.")
 
 
+def gen_optimize(L):
+    src = read("src/classic/clvm_tools/stages/stage_2/optimize.rs")
+    pb = fn_body(src, "path_from_args")
+
+    def signedness(body, what):
+        if re.search(r"number_from_u8\s*\(", body):
+            return True
+        if re.search(r"bigint_from_bytes\s*\([^;]*?,\s*None\s*,?\s*\)", body, re.S):
+            return False
+        raise TranslateError("%s: cannot tell how the path atom is read" % what)
+    sg = signedness(pb, "path_from_args")
+    if re.search(r"if\s+v\s*<=\s*bi_one\s*\(\s*\)\s*\{\s*Ok\s*\(\s*new_args\s*\)", pb):
+        zero_whole = True
+    elif re.search(r"if\s+v\s*==\s*bi_zero\s*\(\s*\)\s*\{\s*(?:return\s+)?Ok\s*\(\s*sexp\s*\)", pb) and re.search(r"v\s*==\s*bi_one\s*\(\s*\)\s*\{\s*(?:return\s+)?Ok\s*\(\s*new_args\s*\)", pb):
+        zero_whole = False
+    else:
+        raise TranslateError("path_from_args: the v <= 1 / v == 0 head changed shape")
+    if not re.search(r"u8_from_number\s*\(\s*v\s*\.\s*clone\s*\(\s*\)\s*>>\s*1\s*\)", pb) or not re.search(r"v\s*&\s*1_u32", pb):
+        raise TranslateError("path_from_args: the bit loop changed shape")
+    po = fn_body(src, "path_optimizer")
+    so = signedness(po, "path_optimizer")
+    if len(re.findall(r"NodePath::new\s*\(\s*Some\s*\(\s*atom\s*\)\s*\)\s*\.\s*add\s*\(\s*NodePath::new\s*\(\s*None\s*\)\s*\.\s*(first|rest)\s*\(\s*\)\s*\)", po)) != 2:
+        raise TranslateError("path_optimizer: NodePath composition changed shape")
+    sb = fn_body(src, "sub_args")
+    ch = fn_body(src, "children_optimizer")
+    sub_rec = re.search(r"SExp::Pair\s*\(\s*_\s*,\s*_\s*\)\s*=>\s*\{\s*first\s*=\s*sub_args\s*\(\s*allocator\s*,\s*first_pre\s*,\s*new_args\s*\)\s*\?\s*;\s*\}", sb)
+    sub_opq = re.search(r"SExp::Pair\s*\(\s*_\s*,\s*_\s*\)\s*=>\s*\{\s*return\s+Ok\s*\(\s*sexp\s*\)\s*;\s*\}", sb)
+    ch_opq = re.search(r"if\s+let\s+SExp::Atom\s*=\s*allocator\s*\.\s*sexp\s*\(\s*list\s*\[\s*0\s*\]\s*\)\s*\{.*?\}\s*\}\s*else\s*\{\s*return\s+Ok\s*\(\s*r\s*\)\s*;\s*\}", ch, re.S)
+    if sub_rec and not ch_opq:
+        opaque = False
+    elif sub_opq and ch_opq:
+        opaque = True
+    else:
+        raise TranslateError("sub_args / children_optimizer: treatment of a pair in head position changed shape")
+    L.append("(* stage_2/optimize.rs: are ((X) . operands) forms left alone by sub_args and children_optimizer *)")
+    L.append("Definition OPT_PAIR_HEAD_OPAQUE : bool := %s." % ("true" if opaque else "false"))
+    L.append("(* stage_2/optimize.rs: how path atoms are read *)")
+    L.append("Definition OPT_PATH_ARGS_SIGNED : bool := %s." % ("true" if sg else "false"))
+    L.append("Definition OPT_PATH_ARGS_ZERO_WHOLE : bool := %s." % ("true" if zero_whole else "false"))
+    L.append("Definition OPT_PATH_OPT_SIGNED : bool := %s." % ("true" if so else "false"))
+    # the order of the optimizers in the driver
+    names = re.findall(r'OptimizerRunner::new\s*\(\s*"(\w+)"', fn_body(src, "optimize_sexp_"))
+    want = ["cons_optimizer", "constant_optimizer", "cons_q_a_optimizer", "var_change_optimizer_cons_eval",
+            "children_optimizer", "path_optimizer", "quote_null_optimizer", "apply_null_optimizer"]
+    if names != want:
+        raise TranslateError("optimize_sexp_: optimizer list is %r, the model has %r" % (names, want))
+
+
 def gen_consts():
     L = []
     L.append("(* GENERATED by /verif/translator/gen_consts.py from /repo's current source. Do not edit. *)")
@@ -214,5 +262,7 @@ def gen_consts():
     gen_serialize(L)
     L.append("")
     gen_casts(L)
+    L.append("")
+    gen_optimize(L)
     L.append("")
     return "\n".join(L)
